@@ -90,6 +90,18 @@ def run_case(case: Dict[str, Any], ctx) -> None:
     if A.ref_nonfinite or B.ref_nonfinite:
         ctx.skip("reference non-finite")
         return
+    if cfg.get("_mags") and dtype in (torch.bfloat16, torch.float16):
+        # large / tiny data in low precision: PyTorch's OWN op can be wrong there (float16 F.rms_norm over two normalised dims
+        # returns all zeros for |x| ~ 300 - its square overflows). The reference must first agree with its float64 evaluation.
+        from ..optable import reference_noise
+        try:
+            worst = max(reference_noise(op, cfg, dtype, sd, uA).get("__out__", 0.0) for sd in (sA, sB))
+        except Exception:
+            worst = 1.0
+        if not worst <= 0.05:
+            ctx.count("excluded:pytorch-low-precision-reference-off-its-float64-value")
+            ctx.skip("PyTorch's own low-precision result is off its float64 value")
+            return
     for fr, tag in ((A, "A"), (B, "B")):
         if not fr.shape_ok:
             ctx.violation(key("shape"), f"output shape {tuple(fr.out_u.shape)} != reference {tuple(fr.out_r.shape)}", cfg=cfg)
